@@ -33,6 +33,8 @@ def md_edge_values(rng):
         ['arr', '<U3', [2], 0], ['arr', 'object', [2], 0], ['tuple', [['arr', '<U3', [2], 0]]], ['tuple', [['int', 2 ** 53 + 1], f(0.5)]],
         ['list', [['int', 2 ** 64], ['int', 1]]], ['tuple', [['np', 'float32', f(0.5)], ['int', 2]]], ['tuple', [['np', 'bool', ['bool', True]], ['int', 2]]],
         ['tuple', [['bool', True], ['np', 'int16', ['int', 7]]]], ['list', [['none']]], ['tuple', [['none'], ['int', 1]]], ['list', [['dict', []]]],
+        ['list', [['int', 2 ** 64 + 1], f(0.5)]], ['tuple', [['int', -2 ** 63], f(2.0)]], ['list', [['int', 2 ** 80 + 12345], ['np', 'float32', f(1.0)]]],
+        ['tuple', [['int', -(2 ** 63) - 1025], ['complex', (1.0).hex(), (0.0).hex()]]], ['list', [['int', 2 ** 63 + 2 ** 10], f(0.25)]], ['tuple', [['int', 2 ** 63 + 5], ['int', 1]]], ['list', [['int', 2 ** 63], ['int', 2 ** 63 + 5]]],
         ['tuple', [['str', 'a\x00']]], ['list', [['bytes', 'b']]], ['tuple', [['tuple', []], ['tuple', []]]], ['tuple', [['tuple', [['np', 'float32', f(2.5)]]]]],
     ]
     out = []
@@ -249,6 +251,8 @@ def oracle(c, r):
             from harness.props import c03
             if c03.find_bigint_mixed(c['v']):
                 return {'key': 'int-beyond-2^53-in-float-sequence', 'what': desc}
+            if M.has_uint64_range_int(c['v']):
+                return {'key': 'int-in-uint64-range-in-sequence', 'what': desc}
             if c03.has_none_sentinel(c['v']):
                 return {'key': 'string-_None-reads-as-None', 'what': desc}
             return {'key': 'accepted-then-different-md', 'what': desc + f": came back as {str(r.get('back'))[:120]}"}
